@@ -103,7 +103,7 @@ func confirm(np *nativeProc, rf *ReplayFile) (bool, nativeResult) {
 		if err != nil {
 			return false, nativeResult{Outcome: "engine-error", Detail: err.Error()}
 		}
-		for try := 0; try < 5 && !ok; try++ {
+		for try := 0; try < 12 && !ok; try++ {
 			hit, out := runRace(bin, nativeJob{ID: 1, Harness: rf.Harness, Tier: rf.Tier, Inputs: rf.Inputs, Timeout: 20000})
 			ok = hit
 			r = nativeResult{Outcome: "ok", Detail: clip(out, 1500)}
@@ -362,7 +362,7 @@ func propertyMain(id string, args []string) int {
 				}
 				hangConfirmed = true
 			}
-			if !ok && (hr.Spec.Sched || hr.Spec.MapOrder) {
+			if !ok && (hr.Spec.Sched || hr.Spec.MapOrder || (v.V.Kind == "race" && nr.Outcome == "ok")) {
 				// the counterexample needs a particular goroutine schedule: the
 				// native run (one arbitrary schedule) did not hit it. It is
 				// reported from the engine's schedule, which replays by
